@@ -11,17 +11,17 @@ CLAIMED = {
    "Trusted: the harness' reference reassembler and refcodec::split_fragments; tokio/bytes; the stale-timer scenario uses the wall clock with a guard (inconclusive instead of failing when the host stalls).",
    "proptest model-based search + bounded-exhaustive enumeration vs reference reassembler", "§3 C11"),
  "C12": ("vp-inproc", "exploration",
-   "Differential + reference-checked property testing of the real readers (HttpRequest/HttpResponse::read_from, SocksRequest::read_from incl. the SOCKS5 negotiation, SocksResponse::read_from, the RPFM StreamFrameReader): for generated valid messages from independent encoders, every explored segmentation (byte-at-a-time, a cut inside every field, generated cut sets, all 2^(n-1) cut sets for inputs <= 12 bytes) must give the same parsed message, the same reply bytes and leave exactly the trailing payload unread, and must agree with the encoded fields; every truncation point of 300 (quick) / 6 000 (thorough) messages must give no message. 2 500 / 150 000 generated cases.",
+   "Differential + reference-checked property testing of the real readers (HttpRequest/HttpResponse::read_from, SocksRequest::read_from incl. the SOCKS5 negotiation, SocksResponse::read_from, the RPFM StreamFrameReader): for generated valid messages from independent encoders, every explored segmentation (byte-at-a-time, a cut inside every field, generated cut sets, all 2^(n-1) cut sets for inputs <= 12 bytes) must give the same parsed message, the same reply bytes and leave exactly the trailing payload unread, and must agree with the encoded fields; every truncation point of 300 (quick) / 6 000 (thorough) messages must give no message. 2 500 / 150 000 generated cases. Thorough tier only: a coverage-guided libFuzzer campaign (8 forks x 600 s) over all 14 decoder drivers whose in-target oracle is whole-versus-segmented outcome equality.",
    "Trusted: refcodec encoders (written from the RFCs / the frame comment), tokio's in-memory duplex as the segment carrier (a yield between segments lets the reader observe each boundary).",
-   "proptest differential (whole vs segmented) + round-trip against reference encoders + exhaustive cut sets for short inputs", "§3 C12"),
+   "proptest differential (whole vs segmented) + round-trip against reference encoders + exhaustive cut sets for short inputs; libFuzzer differential campaign in the thorough tier", "§3 C12"),
  "C03": ("vp-inproc", "exploration",
    "Round-trip / composition testing of the real codecs against independent reference encoders and parsers: a destination from 30 hostile host classes (or an IP) is reference-encoded for an inbound protocol, read by the real reader, handed to the real writer of an outbound protocol (real h11c_connect, SocksRequest::write_to, encode_socks_frame, Frame::make_header / StreamFrameWriter / Fragmentable buffer) and the bytes on the wire are reference-parsed: refusal, or exactly one well-formed message naming the same destination with no residue / extra header. 60 000 (quick) / 600 000 (thorough) cases over all 54 (inbound, outbound) pairs.",
    "Trusted: refcodec (RFC 1928/1929, SOCKS4/4a memos, RFC 7230 head syntax, the RPFM comment); canon() treats a name that is an IP literal as that address; per RFC 7230 §3.5 no whitespace is generated inside an inbound CONNECT target.",
    "proptest round-trip through reference encoder -> real reader -> real writer -> reference parser", "§3 C03"),
  "C05": ("both", "exploration",
-   "(a) In-process decoder sweep: every peer-facing decoder incl. the listener- and connector-side handshakes is fed arbitrary bytes and mutated valid messages under generated segmentations, then EOF; exhaustive (total,seq) header sweep and 0-3 byte datagrams; arbitrary datagram sequences; make_fragments for every MTU 0..65535. Oracle: no panic under dev-profile checks (the shipped profiles abort on panic), termination. (b) 48 (quick) / 1 600 (thorough) sequences of 6-17 hostile sessions against one real proxy: mutated valid messages to every TCP listener, on QUIC streams, as datagrams to the SOCKS5 UDP relay / reverse-UDP / QUIC ports, as QUIC datagrams with and without a session, and as upstream replies for every connector kind; after every session the process must run, fresh HTTP / SOCKS5 / QUIC CONNECTs must relay and the API must answer.",
+   "(a) In-process decoder sweep: every peer-facing decoder incl. the listener- and connector-side handshakes is fed arbitrary bytes and mutated valid messages under generated segmentations, then EOF; exhaustive (total,seq) header sweep and 0-3 byte datagrams; arbitrary datagram sequences; make_fragments for every MTU 0..65535. Oracle: no panic under dev-profile checks (the shipped profiles abort on panic), termination. (b) 48 (quick) / 1 600 (thorough) sequences of 6-17 hostile sessions against one real proxy: mutated valid messages to every TCP listener, on QUIC streams, as datagrams to the SOCKS5 UDP relay / reverse-UDP / QUIC ports, as QUIC datagrams with and without a session, and as upstream replies for every connector kind; after every session the process must run, fresh HTTP / SOCKS5 / QUIC CONNECTs must relay and the API must answer. Thorough tier only: a coverage-guided libFuzzer campaign (8 forks x 600 s) over the same 14 decoder drivers, seeded with ~1 500 valid messages, oracle = no panic / termination.",
    "Trusted: panic capture via catch_unwind in a harness built with panic=unwind over the same sources; dev-profile overflow checks are at least as strict as the release profile; (b) 4 s liveness bounds.",
-   "proptest mutation fuzzing of valid messages + exhaustive header/MTU enumeration (in-process) + generated hostile session sequences against the real process, oracle = no panic / termination / liveness afterwards", "§3 C05"),
+   "proptest mutation fuzzing of valid messages + exhaustive header/MTU enumeration (in-process) + generated hostile session sequences against the real process + libFuzzer campaign in the thorough tier, oracle = no panic / termination / liveness afterwards", "§3 C05"),
  "C09": ("vp-inproc", "exploration",
    "The README operator table is transcribed into data; every operator/spelling alone, every expression tree with 2 operator nodes (exhaustive, 2142 trees) and a seeded sample of 8 000 (quick) / all ~170 000 (thorough) trees with 3 operator nodes, plus 2 500 / 400 000 random deeper trees with literals, arrays, tuples, templates, let/if/?:, are printed (i) with only the parentheses the table makes necessary and (ii) fully parenthesised, and with generated blank/comment filler at every token boundary; each rendering must parse to the tree built directly from the builtin constructors.",
    "Trusted: my transcription of the table and the 'necessary parentheses' rule (child parenthesised iff lower precedence, or equal precedence on the non-associative side; different precedence-0 constructs in tail position are always parenthesised because the table does not order them); comments after the last token are not generated (not 'between tokens').",
